@@ -587,6 +587,17 @@ def widened(ctx, st, pd):
         J.add('two samples: value', 'pc(a, b)[%s, %s]' % (ca, cb), st.pc, (oa,) if kw else (oa, ob), 'pc2', kwargs=dict(array2=ob) if kw else None,
               pc2=tok2(a, b), desc='a = %s of %s, b = %s of %s (%s labels%s)' % (ca, _show_sample(a), cb, _show_sample(b), kind, ', array2 by keyword' if kw else ''),
               replay=dict(a=[_short(repr(x), 1100) for x in a], b=[_short(repr(x), 1100) for x in b], containers=[ca, cb], kind=kind))
+    # categorical Series, each sample converted on its own (so the two carry DIFFERENT category lists), and a categorical against a plain list:
+    # the elements are the labels, not their per-sample codes (seeded change C06-r9m2)
+    for t_ in range(8 if quick else 60):
+        labs = ['CASSL', 'CASSF', 'CATT', 'CAWW', 'CSVG'][:rng.randint(2, 5)]
+        a = [rng.choice(labs) for _ in range(rng.randint(2, 7))]
+        b = [rng.choice(labs[::-1][:max(2, len(labs) - 1)] + ['CQQQ']) for _ in range(rng.randint(2, 7))]
+        oa = pd.Series(a).astype('category')
+        ob = pd.Series(b).astype('category') if t_ % 2 else list(b)
+        J.add('two samples: value', 'pc(a, b)[categorical Series, %s]' % ('categorical Series' if t_ % 2 else 'list'), st.pc, (oa, ob), 'pc2', pc2=tok2(a, b),
+              desc='a = categorical %s, b = %s %s' % (a, 'categorical' if t_ % 2 else 'list', b), replay=dict(a=a, b=b, containers=['category', 'category' if t_ % 2 else 'list']))
+        J.add('one sample: value', 'pc[categorical Series]', st.pc, (oa,), 'pc', counts=_counts_of(a), desc='categorical %s' % a, replay=dict(a=a))
     # numpy str arrays of different widths: labels of one sample longer than every label of the other, sharing its prefix
     for a, b in ((['CAS', 'CAT', 'CAS'], ['CASSL', 'CAS', 'CATTT', 'CASSL']), (['A', 'B'], ['AB', 'A', 'BA', 'B', 'B']),
                  (['CASSLGF'] * 3 + ['CASS'], ['CASS', 'CASSLGFQETQYF', 'CASSLGFQ'])):
